@@ -18,7 +18,7 @@ func init() {
 		ID:          "C03",
 		Level:       "other",
 		Run:         runC03,
-		Explanation: "Structural rules over the pipelined variants: R03.1 who-may-write architectural state (Context.Registers/Memory are stored to only by non-scoreboard Context methods and by the variants' line write-back routines; Context writers are called only from write units, branch resolution and Run); R03.2 every write-unit commit is behind the sequence filter `execution.SequenceID > limit` with limit != -1, and from the variant where register results are renamed the write-unit step of a flush cycle receives the limit; R03.3 the pipeline flush reaches the flush/clean of every bus and unit (and bumps the sequence epoch where one is used); R03.4 before the flush, Run drains execute units holding older work with the limit installed and the execute unit's pre-step drops exactly the younger ones; R03.5 branch resolution: taken -> rollback with the branch's own id, not taken -> commit; R03.6 decode stalls after an unconditional jump until the target is reported; R03.7 stores reach a cache only sequence-guarded or gated on unresolved conditional branches; R03.8 the branch/memory classification tables agree with the opcode implementations; R03.10 the flush path contains no explicit panic; R03.11 every read of the memory image by a line fetch is bounded (a wrong-path load may fetch any address); R03.12 the branch unit never misses a flush (assert -> jump/conditionalBranch sets the flush flag whenever the resolved pc differs from the fetched one); R03.13 every dispatch path of the control unit maintains the flags that hold ret and stores behind an unresolved conditional branch; R03.14 the squash restores register state: Context.Rollback/RATRollback, the transactional writes and the tag-bounded rename-table lookups equal the reference model (spec/risc_state.go.txt). Does not decide that sequence ids order instructions correctly across loop iterations and epochs (a value question).",
+		Explanation: "Structural rules over the pipelined variants: R03.1 who-may-write architectural state (Context.Registers/Memory are stored to only by non-scoreboard Context methods and by the variants' line write-back routines; Context writers are called only from write units, branch resolution and Run); R03.2 every write-unit commit is behind the sequence filter `execution.SequenceID > limit` with limit != -1, and from the variant where register results are renamed the write-unit step of a flush cycle receives the limit; R03.3 the pipeline flush reaches the flush/clean of every bus and unit (and bumps the sequence epoch where one is used); R03.4 before the flush, Run drains execute units holding older work with the limit installed and the execute unit's pre-step drops exactly the younger ones; R03.5 branch resolution: taken -> rollback with the branch's own id, not taken -> commit; R03.6 decode stalls after an unconditional jump until the target is reported; R03.7 stores reach a cache only sequence-guarded or gated on unresolved conditional branches; R03.8 the branch/memory classification tables agree with the opcode implementations; R03.10 the flush path contains no explicit panic; R03.11 every read of the memory image by a line fetch is bounded (a wrong-path load may fetch any address); R03.12 the branch unit never misses a flush (assert -> jump/conditionalBranch sets the flush flag whenever the resolved pc differs from the fetched one); R03.13 every dispatch path of the control unit maintains the flags that hold ret and stores behind an unresolved conditional branch; R03.15 a variant that writes results into the register file directly dispatches in order or holds every instruction while a conditional branch is unresolved; R03.14 the squash restores register state: Context.Rollback/RATRollback, the transactional writes and the tag-bounded rename-table lookups equal the reference model (spec/risc_state.go.txt). Does not decide that sequence ids order instructions correctly across loop iterations and epochs (a value question).",
 		Assumptions: []string{"sequence ids increase in program order within an epoch (not decided)"},
 		Trusted:     []string{"go/types", "role resolution (evidence.anchors)", "E-TERM opcode terms for the derived classification"},
 	})
@@ -987,6 +987,8 @@ func runC03(r *Run) {
 	// are maintained on every dispatch path
 	r.floor("R03.13", 7)
 	ruleDispatchBookkeeping(r, "R03.13")
+	r.floor("R03.15", 2)
+	ruleDirectWritesInOrder(r, "R03.15")
 	// the squash restores the register state: rollback and the tag-bounded
 	// rename-table lookups equal the reference model
 	r.floor("R03.14", 6)
@@ -994,6 +996,8 @@ func runC03(r *Run) {
 	conform(r, "R03.14", "risc", "Context", "RATRollback", "risc_state", nil)
 	conform(r, "R03.14", "risc", "Context", "TransactionWriteRegister", "risc_state", nil)
 	conform(r, "R03.14", "risc", "Context", "TransactionRATWrite", "risc_state", nil)
+	conform(r, "R03.14", "risc", "Context", "commitRAT", "risc_state", nil)
+	conform(r, "R03.14", "proc/comp", "RAT", "WriteSorted", "risc_state", nil)
 	conform(r, "R03.14", "proc/comp", "RAT", "Find", "risc_state", nil)
 	conform(r, "R03.14", "proc/comp", "RAT", "FindValues", "risc_state", nil)
 }
@@ -1164,4 +1168,140 @@ func ruleNeverMissesFlush(r *Run, rule string) {
 			r.check(good, rule, key, fd.Pos(), "the flush decision answers no-flush only when the check is disarmed or the resolved target equals the expectation %s", why)
 		}
 	}
+}
+
+// ruleDirectWritesInOrder (R03.15): a variant whose write unit stores results
+// into the architectural register file directly (no transaction, no rename
+// table) cannot undo a register write. With several execute units its control
+// unit must therefore not let an instruction overtake an older conditional
+// branch that is still held back or unresolved: either dispatch is in order
+// (a held-back instruction stops the step) or it is gated on the
+// unresolved-conditional-branch flag for every instruction, not only for ret.
+func ruleDirectWritesInOrder(r *Run, rule string) {
+	w := r.W
+	retConst := w.Pkg("risc").Types.Scope().Lookup("Ret")
+	for _, v := range variants(w) {
+		if v.pkg == nil || !v.pipelined() || !multiExec(v) {
+			continue
+		}
+		info := v.info
+		// register-write style
+		direct := true
+		for _, f := range v.pkg.Syntax {
+			ast.Inspect(f, func(n ast.Node) bool {
+				if call, ok := n.(*ast.CallExpr); ok {
+					if fn, ok := typeutil.Callee(info, call).(*types.Func); ok && (fn.Name() == "TransactionWriteRegister" || fn.Name() == "TransactionRATWrite") {
+						direct = false
+					}
+				}
+				return true
+			})
+		}
+		if !direct {
+			continue
+		}
+		for _, f := range v.fields {
+			if !f.isUnit {
+				continue
+			}
+			for i := 0; i < f.unitT.NumMethods(); i++ {
+				fd, _ := w.FuncDecl(f.unitT.Method(i))
+				if fd == nil || fd.Body == nil || fd.Type.Results == nil {
+					continue
+				}
+				sig := f.unitT.Method(i).Type().(*types.Signature)
+				if sig.Results().Len() != 2 || typeName(sig.Results().At(0).Type()) != "bool" || typeName(sig.Results().At(1).Type()) != "bool" {
+					continue
+				}
+				if !w.reaches(info, fd.Body, func(fn *types.Func) bool { return fn.Name() == "IsDataHazard3" }) {
+					continue
+				}
+				// out of order: some path reports (not pushed, do not stop)
+				outOfOrder := false
+				ast.Inspect(fd.Body, func(n ast.Node) bool {
+					rs, ok := n.(*ast.ReturnStmt)
+					if !ok || len(rs.Results) != 2 {
+						return true
+					}
+					a, b := info.Types[rs.Results[0]], info.Types[rs.Results[1]]
+					if a.Value != nil && b.Value != nil && a.Value.String() == "false" && b.Value.String() == "false" {
+						outOfOrder = true
+					}
+					return true
+				})
+				// gate: if <flag> { return false, true } with a flag raised under IsConditionalBranch, not tied to ret
+				gated := false
+				ast.Inspect(fd.Body, func(n ast.Node) bool {
+					is, ok := n.(*ast.IfStmt)
+					if !ok || !terminates(is.Body.List) {
+						return true
+					}
+					usesRet, usesFlag := false, false
+					ast.Inspect(is.Cond, func(m ast.Node) bool {
+						switch x := m.(type) {
+						case *ast.Ident:
+							if info.Uses[x] == retConst {
+								usesRet = true
+							}
+						case *ast.SelectorExpr:
+							if s := info.Selections[x]; s != nil && s.Kind() == types.FieldVal && typeName(s.Obj().Type()) == "bool" && raisedUnderConditionalBranch(w, v, s.Obj()) {
+								usesFlag = true
+							}
+						}
+						return true
+					})
+					if usesFlag && !usesRet {
+						gated = true
+					}
+					return true
+				})
+				// with forwarding a dispatched branch can wait in its execute unit for an operand: in-order dispatch
+				// alone does not keep younger instructions behind it
+				forwarding := hasDeclMethod(f.unitT, "shouldUseForwarding") != nil
+				if forwarding {
+					outOfOrder = true
+				}
+				r.check(!outOfOrder || gated, rule, fmt.Sprintf("%s.(%s).%s:in-order-or-gated", v.rel, f.unitT.Obj().Name(), fd.Name.Name), fd.Pos(), "results are written to the register file directly (nothing can be undone): no instruction may overtake an unresolved conditional branch — dispatch is in order and a dispatched branch never waits for a forwarded operand (%v), or every instruction is held while a conditional branch is unresolved (%v)", !outOfOrder, gated)
+			}
+		}
+	}
+}
+
+// raisedUnderConditionalBranch: the bool field is set to true in the variant under a
+// test that calls IsConditionalBranch.
+func raisedUnderConditionalBranch(w *World, v *variant, field types.Object) bool {
+	found := false
+	for _, f := range v.pkg.Syntax {
+		ast.Inspect(f, func(n ast.Node) bool {
+			is, ok := n.(*ast.IfStmt)
+			if !ok {
+				return true
+			}
+			direct := false
+			ast.Inspect(is.Cond, func(m ast.Node) bool {
+				if c, ok := m.(*ast.CallExpr); ok {
+					if fn, ok := typeutil.Callee(v.info, c).(*types.Func); ok && fn.Name() == "IsConditionalBranch" {
+						direct = true
+					}
+				}
+				return true
+			})
+			if !direct {
+				return true
+			}
+			for _, st := range is.Body.List {
+				if as, ok := st.(*ast.AssignStmt); ok && len(as.Lhs) == 1 && len(as.Rhs) == 1 {
+					if sel, ok := ast.Unparen(as.Lhs[0]).(*ast.SelectorExpr); ok {
+						if s := v.info.Selections[sel]; s != nil && s.Obj() == field {
+							if tv := v.info.Types[as.Rhs[0]]; tv.Value != nil && tv.Value.String() == "true" {
+								found = true
+							}
+						}
+					}
+				}
+			}
+			return true
+		})
+	}
+	return found
 }
